@@ -822,6 +822,82 @@ def judge_option(ctx, case):
                 ctx.ok(('option', name, 'accepted', repr(val)[:12]), True)
 
 
+# ---- lazy results consumed after the options have moved on ------------------------------------------------------------
+LAZY_METHODS = ['findall', 'findall-bytealigned', 'split', 'cut', 'iter', 'array-iter', 'findall-count', 'split-window', 'rfind-after']
+
+
+def gen_lazy(ctx):
+    rng = ctx.rng
+    L = rng.choice([0, 1, 8, 13, 40, 64, 100])
+    return {'lazy': rng.choice(LAZY_METHODS), 'cls': rng.choice(util.CLASS_NAMES), 'bits': rb(rng, L), 'pat': rb(rng, rng.choice([1, 2, 8])),
+            'before': [rng.random() < 0.5, rng.random() < 0.5], 'after': [rng.random() < 0.5, rng.random() < 0.5], 'consume_first': rng.choice([0, 0, 1, 2])}
+
+
+def judge_lazy(ctx, case):
+    """A generator returned by a public method is made under one setting of lsb0 / bytealigned and consumed (wholly, or the rest of it) under
+    another.  Which setting its items follow is not stated anywhere; that consuming it either works or raises a documented error is."""
+    import itertools
+    from rv import sentinels
+    m, bits, pat = case['lazy'], case['bits'], '0b' + case['pat']
+    b0, b1 = case['before'], case['after']
+    sentinels._state['harness_moves_options'] = True      # (S4 compares the options before and after a raising call: here the harness changes them in between)
+    try:
+        _judge_lazy(ctx, case, m, bits, pat, b0, b1)
+    finally:
+        sentinels._state['harness_moves_options'] = False
+
+
+def _judge_lazy(ctx, case, m, bits, pat, b0, b1):
+    import itertools
+    with util.options(lsb0=b0[0], bytealigned=b0[1]):
+        s = util.mk(case['cls'], bits)
+        snap = (len(s), B(s))
+
+        def make():
+            if m == 'findall':
+                return s.findall(pat)
+            if m == 'findall-bytealigned':
+                return s.findall(pat, bytealigned=True)
+            if m == 'findall-count':
+                return s.findall(pat, count=2)
+            if m == 'split':
+                return s.split(pat)
+            if m == 'split-window':
+                return s.split(pat, 1, max(len(s) - 1, 1), 3)
+            if m == 'cut':
+                return s.cut(3)
+            if m == 'iter':
+                return iter(s)
+            if m == 'array-iter':
+                return iter(Array('u4', s))
+            return iter([s.rfind(pat)])
+        kind, g = call(make)
+        ctx.op('lazy:' + m, 'ok' if kind == 'ok' else type(g).__name__)
+        fails = []
+        if kind == 'exc':
+            oc = outcome_class(kind, g, 'lazy')
+            if oc:
+                fails.append(oc)
+        else:
+            k1, first = call(lambda: list(itertools.islice(g, case['consume_first'])))
+            bitstring.options.lsb0, bitstring.options.bytealigned = b1[0], b1[1]
+            set_now = util.get_options()
+            k2, rest = call(lambda: list(itertools.islice(g, 10000)))
+            for k_, v_ in ((k1, first), (k2, rest)):
+                oc = outcome_class(k_, v_, 'lazy') if k_ == 'exc' else None
+                if oc:
+                    fails.append(oc)
+            if util.get_options() != set_now:
+                fails.append('options-changed-by-consuming-a-generator')
+            if (len(s), B(s)) != snap:
+                fails.append('receiver-changed-by-consuming-a-generator')
+        if fails:
+            for fl in dict.fromkeys(fails):
+                ctx.mismatch(f'C20|{fl}' if '-exc:' in fl else f'C20|lazy:{m}|{fl}', case, f'{m} made under lsb0/bytealigned={b0}, consumed under {b1}')
+        else:
+            ctx.ok(('lazy', m, tuple(b0), tuple(b1), case['consume_first'] > 0), b0 != b1)
+
+
 def option_cases(ctx):
     for name, vals in OPTION_VALUES.items():
         for v in vals:
@@ -860,6 +936,16 @@ def judge_termination(ctx, case):
 
 
 # ---- small reproducers of repaired defects that the random workload reaches only rarely (each must stay documented-exception-or-ok) ----
+def _lazy_findall_across_toggle():
+    bitstring.options.lsb0 = True
+    try:
+        g = Bits('0b0110100110').findall('0b1')
+        h = ConstBitStream('0x0ff0').findall('0xf', bytealigned=True)
+    finally:
+        bitstring.options.lsb0 = False
+    return list(g), list(h)
+
+
 def _regressions():
     import io as _io
     return {
@@ -872,6 +958,7 @@ def _regressions():
         'ConstBitStream(BufferedReader(BytesIO))': lambda: ConstBitStream(_io.BufferedReader(_io.BytesIO(b''))).pos,
         "pp(pad8, sep='')": lambda: Bits(16).pp('pad8', sep='', stream=_io.StringIO()),
         "pp(pad3, pad3, sep='')": lambda: Bits(12).pp('pad3, pad3', sep='', stream=_io.StringIO()),
+        'findall made under lsb0, consumed after the option was switched off': lambda: _lazy_findall_across_toggle(),
         'Bits() == 10**5000': lambda: (Bits() == 10 ** 5000, Bits('0b1') != -10 ** 6000),
         'BitArray(10**5000 as auto in +)': lambda: BitArray('0b1') + 10 ** 5000,
         's >> True': lambda: (Bits('0b1010') >> True, Bits('0b1010') << True, BitArray('0b1010').__irshift__(True)),
@@ -919,6 +1006,8 @@ def run(ctx):
             ctx.sample({'receiver': c['receiver'][:2], 'calls': c['calls'][:3]})
     for i in range(ctx.scale(6000, 200000)):
         ctx.run_case(judge_entry, gen_entry(ctx))
+    for i in range(ctx.scale(1500, 40000)):
+        ctx.run_case(judge_lazy, gen_lazy(ctx))
     # reach: which public callables were never called in this shard (merged by the parent)
     called = {k.split('.', 1)[1] for k in ctx.ops if '.' in k}
     ctx.extra['public_callables'] = {cls: len(m) for cls, (m, p) in api().items()}
@@ -942,6 +1031,8 @@ def replay(ctx, case):
         judge_termination(ctx, case)
     elif 'option' in case:
         ctx.run_case(judge_option, case)
+    elif 'lazy' in case:
+        ctx.run_case(judge_lazy, case)
     elif 'entry' in case:
         ctx.run_case(judge_entry, case)
     else:
